@@ -270,7 +270,7 @@ def check_op(sc, obs, opi, add):
 
 def expected_exc_types(op):
     f = op.get('fail') or {}
-    return {'ValueError': 'ValueError', 'Custom': 'CustomError', 'Attr': 'AttrError', 'SystemExit': 'SystemExit', 'KeyError': 'KeyError', 'Wrap': 'WrapError'}.get(f.get('exc', 'ValueError'))
+    return {'ValueError': 'ValueError', 'Custom': 'CustomError', 'Attr': 'AttrError', 'SystemExit': 'SystemExit', 'KeyError': 'KeyError', 'Wrap': 'WrapError', 'Prefix': 'PrefixedError'}.get(f.get('exc', 'ValueError'))
 
 
 def check_failure_op(sc, obs, opi, add, latency_bound=None):
